@@ -161,7 +161,7 @@ def run(ctx, replay=None):
     acc = sum(1 for c in cases if c['kind'] == 'tokens' and c['outcome'] == 'ok')
     rej = sum(1 for c in cases if c['kind'] == 'tokens' and c['outcome'] != 'ok')
     if not acc or not rej:
-        raise tlc.MachineryError('vacuity: token strings all accepted or all rejected')
+        ctx.vacuous('vacuity: token strings all accepted or all rejected')
     ctx.notes.update({'chains_enumerated': nchains, 'exhaustive_chain_cases': nexh, 'token_strings_accepted': acc, 'token_strings_rejected': rej})
     return F.finish(ctx, rule='all operator chains up to length %d x operand forms x 2 layouts, longer sampled chains, random flat '
                     'expressions to depth 8 and random token strings; the real tree must equal Denote(flat) computed by TLC, '
